@@ -13,19 +13,33 @@ def _mux_build(p):
     kw = {}
     if p.get('default'):
         kw['default'] = pyrtl.Input(w, 'dflt')
+    if p.get('shared') is not None:
+        # the very same object is listed explicitly at these slots AND is the default
+        for k in p['shared']:
+            ins[k] = kw['default']
+    if p.get('lut') is not None:
+        ins = list(p['lut'])                      # integer look-up table, default also an int
+        kw = {'default': p['lut_default']} if p.get('lut_default') is not None else {}
+        # give the result a wire context (all-int inputs are converted by mux itself)
     return _outs([('mux', pyrtl.mux(idx, *ins, **kw))])
 
 
 def _mux_spec(o, p, ins):
     n = p['n']
+    if p.get('lut') is not None:
+        r = p['lut_default'] if p.get('lut_default') is not None else 0
+        for i in reversed(range(len(p['lut']))):
+            r = o.ite(ins['idx'] == i, p['lut'][i], r)
+        return dict(mux=r)
     r = ins['dflt'] if p.get('default') else 0
+    shared = set(p.get('shared') or ())
     for i in reversed(range(n)):
-        r = o.ite(ins['idx'] == i, ins['d%d' % i], r)
+        r = o.ite(ins['idx'] == i, ins['dflt'] if i in shared else ins['d%d' % i], r)
     return dict(mux=r)
 
 
 case('mux.mux', _mux_spec, W=lambda p: p['w'] + p['iw'] + 4,
-     lens=lambda p: dict(mux=p['w']))(_mux_build)
+     lens=lambda p: dict(mux=p['w']) if p.get('lut') is None else {})(_mux_build)
 
 
 # ----------------------------------------------------------------------------- sparse / enum mux
